@@ -26,6 +26,14 @@ ANGLE = {
           "curve ends, thresholds at the extremes of their stated range, size parameters 0 / 1 / n / n+1), and the interaction of two "
           "options that are each fine alone. The change must still look like a reasonable commit (a guard moved, a loop bound "
           "'simplified', an early return added, a special case 'unified' with the general one)."),
+    "8": ("Considered covered already: everything simple, numeric tolerances, dtypes, hidden state, size-dependent fast paths, "
+          "truthiness slips, enum/dispatch drift, helper drift, translation/scaling, smallest inputs and extreme option values. "
+          "This round's theme: the INTERFACE between two stages - what one function returns and the next one (or the caller) "
+          "relies on: indices relative to a slice versus absolute indices (an offset added twice or not at all), the order / "
+          "sortedness / uniqueness of a returned index array, a returned array that aliases an argument or an internal buffer, "
+          "a fallback value taken on an exceptional path (an except clause, a NaN / None / empty result replaced by a default), "
+          "a result computed for the wrong one of two similar inputs (reduced versus original curve, x versus index). Again it "
+          "must look like a commit a reviewer could approve, and must need something specific to manifest."),
 }[rnd]
 props = [json.loads(l) for l in open("/verif/properties.jsonl")]
 for p in props:
